@@ -60,6 +60,45 @@ def c08(run):
     return run.finish(RULE_TRACE)
 
 
+def c09(run):
+    hp, reports = run.spec_hostile(Q(run, 1, 6))
+    path, st = run.child_trace(hp, "spec-hostile")
+    run.cov["spec_generated_inputs"] = len(reports)
+    run.judge(path, st, "spec-hostile")
+    path, st = run.child_trace(run.gen_histories("hostile", Q(run, 2, 40)), "hostile")
+    run.judge(path, st, "hostile")
+    path, st = run.child_trace(run.gen_histories("hostile-prims", 1), "hostile-prims")
+    run.judge(path, st, "hostile-prims")
+    run.assumptions += ["totality of the Go decoders is sampled, not proved", "abort = the child process died under ulimit -v 1.5 GiB; hang = a call did not return within 2 s + 1 us/byte"]
+    return run.finish(RULE_HOSTILE)
+
+
+def c10(run):
+    hp, reports = run.spec_hostile(Q(run, 1, 6))
+    path, st = run.child_trace(hp, "spec-hostile")
+    run.cov["spec_generated_inputs"] = len(reports)
+    run.judge(path, st, "spec-hostile")
+    path, st = run.child_trace(run.gen_histories("hostile", Q(run, 2, 40)), "hostile")
+    run.judge(path, st, "hostile")
+    path, st = run.child_trace(run.gen_histories("hostile-prims", 1), "hostile-prims")
+    run.judge(path, st, "hostile-prims")
+    # well-formed inputs must stay inside the budget too (no false alarm on large legitimate messages)
+    path, st = run.child_trace(run.gen_histories("roundtrip-meter", Q(run, 1, 10)), "roundtrip-meter")
+    run.judge(path, st, "roundtrip-meter")
+    run.assumptions += ["budget: TotalAlloc delta of one Decode <= 16 KiB + 64 x input bytes (calibrated on the real decoders, DESIGN.md C10)",
+                        "a child killed by the address-space limit counts as exceeding the budget"]
+    return run.finish(RULE_HOSTILE)
+
+
+RULE_HOSTILE = ("direction A: TLC derives, from sample values of all 170 types, one hostile input per length/count prefix position of the pinned "
+                "layout x {max, max-1, 2^(8w-1), remaining+1} x {cut right after the prefix, 6 more bytes} and states what the decode action "
+                "does with it; direction B: seeded mutations of valid encodings (prefix maximisation at every prefix position, truncation, bit "
+                "flips, splices, random and constant bytes) and hostile prefixes for every prefixed read primitive x prefix width 1/2/4/8 x byte "
+                "order. All are executed on the real decoders in child processes under ulimit -v with a watchdog; TLC validates the recorded "
+                "trace (outcome alphabet {ok, err}; TotalAlloc budget). distinct_nontrivial = distinct (type, mutation kind, outcome, leftover "
+                "class) tuples. ")
+
+
 def c11(run):
     run.trace("cut", Q(run, 1, 12), chunk=4000)
     return run.finish(RULE_TRACE + "Every cut position 0..len-1 of each encoding (all cuts within the first/last 150 bytes plus 100 random ones for encodings over 400 bytes).")
@@ -124,7 +163,7 @@ def all_types():
     return sorted(json.load(open(SCHEMA))["types"].keys())
 
 
-CHECKS = {"C03": c03, "C13": c13, "C14": c14, "C18": c18, "C01": c01, "C02": c02, "C04": c04, "C05": c05, "C06": c06, "C07": c07, "C08": c08, "C11": c11, "C12": c12,
+CHECKS = {"C03": c03, "C09": c09, "C10": c10, "C13": c13, "C14": c14, "C18": c18, "C01": c01, "C02": c02, "C04": c04, "C05": c05, "C06": c06, "C07": c07, "C08": c08, "C11": c11, "C12": c12,
           "C15": c15, "C16": c16, "C17": c17}
 
 
